@@ -121,6 +121,36 @@ func linOf(v ssa.Value, depth int) linForm {
 	return linForm{symName(v): 1}
 }
 
+// linOfChars is linOf for column arithmetic: utf8.RuneCountInString(x[:k]), the number of characters of a prefix, is
+// read as k. The two are equal for the one-line ASCII scalars C07 is about; the strings whose prefixes were counted are
+// appended to bases so that the caller can check that they are the strings the k bytes are then sliced off.
+func linOfChars(v ssa.Value, depth int, bases *[]ssa.Value) linForm {
+	if depth > 12 {
+		return linForm{symName(v): 1}
+	}
+	switch x := v.(type) {
+	case *ssa.BinOp:
+		switch x.Op {
+		case token.ADD:
+			return linAdd(linOfChars(x.X, depth+1, bases), linOfChars(x.Y, depth+1, bases), 1)
+		case token.SUB:
+			return linAdd(linOfChars(x.X, depth+1, bases), linOfChars(x.Y, depth+1, bases), -1)
+		}
+	case *ssa.Convert:
+		return linOfChars(x.X, depth+1, bases)
+	case *ssa.ChangeType:
+		return linOfChars(x.X, depth+1, bases)
+	case *ssa.Call:
+		if calleeFullName(&x.Call) == "unicode/utf8.RuneCountInString" {
+			if sl, ok := x.Call.Args[0].(*ssa.Slice); ok && sl.Low == nil && sl.High != nil {
+				*bases = append(*bases, sl.X)
+				return linOf(sl.High, depth+1)
+			}
+		}
+	}
+	return linOf(v, depth)
+}
+
 func linConst(l linForm) int { return l["1"] }
 func linWithout(l linForm, keys ...string) linForm {
 	o := linForm{}
@@ -199,7 +229,8 @@ func runC07Accum(c *Ctx) {
 	}
 	cut1 := linOf(sl.Low, 0) // bytes cut before this placeholder's text
 	// the column argument
-	colForm := linOf(args[3], 0)
+	var counted []ssa.Value
+	colForm := linOfChars(args[3], 0, &counted)
 	// find the loop-carried offset phi among the symbols of colForm
 	var ophi *ssa.Phi
 	for _, in := range sphi.Block().Instrs {
@@ -266,7 +297,22 @@ func runC07Accum(c *Ctx) {
 			total = linAdd(total, linOf(s2.Low, 0), 1)
 			cur = s2.X
 		}
-		adv := linAdd(linOf(ophi.Edges[i], 0), linForm{symName(ophi): 1}, -1)
+		adv := linAdd(linOfChars(ophi.Edges[i], 0, &counted), linForm{symName(ophi): 1}, -1)
+		// prefixes whose characters were counted belong to the strings of the slicing chain
+		chain := map[ssa.Value]bool{sphi: true}
+		for cur := e; cur != ssa.Value(sphi); {
+			s2, ok := cur.(*ssa.Slice)
+			if !ok {
+				break
+			}
+			chain[s2.X] = true
+			cur = s2.X
+		}
+		for _, b := range counted {
+			if !chain[b] {
+				okChain = false
+			}
+		}
 		cb := fmt.Sprintf("(*RuleExpression).checkExprsIn|offset tracks slicing (back edge %d)", i)
 		switch {
 		case !okChain:
@@ -287,7 +333,7 @@ func runC07Accum(c *Ctx) {
 		if !ok || fieldAddrName(fa) != "Pos.Col" {
 			return
 		}
-		d := linAdd(linOf(st.Val, 0), colForm, -1)
+		d := linAdd(linOfChars(st.Val, 0, &counted), colForm, -1)
 		if d.String() == "-3" {
 			c.ok("(*RuleExpression).checkExprsIn|position of ${{", st.Pos(), "three characters before the expression text")
 		} else {
